@@ -75,7 +75,7 @@ pub mod orion_x25519 {
         pub fn from_slice(s: &[u8]) -> (r: Result<PublicKey, UnknownCryptoError>)
             ensures r is Ok <==> s@.len() == 32, r matches Ok(k) ==> k.view() == s@
         { unimplemented!() }
-        /// orion: `impl TryFrom<&PrivateKey> for PublicKey` — scalar multiplication of the base point; cannot fail for a 32-byte key
+        /// orion: `impl TryFrom<&PrivateKey> for PublicKey` - scalar multiplication of the base point; cannot fail for a 32-byte key
         #[verifier::external_body]
         pub fn try_from(sk: &PrivateKey) -> (r: Result<PublicKey, UnknownCryptoError>)
             ensures r is Ok, r matches Ok(k) ==> k.to_bytes_spec() == spec_x25519_base(sk.view())
